@@ -24,8 +24,10 @@ import (
 	"github.com/ory/keto/internal/driver"
 	"github.com/ory/keto/internal/expand"
 	"github.com/ory/keto/internal/namespace"
+	"github.com/ory/keto/internal/namespace/namespacehandler"
 	"github.com/ory/keto/internal/relationtuple"
 	"github.com/ory/keto/ketoapi"
+	oplpb "github.com/ory/keto/proto/ory/keto/opl/v1alpha1"
 	rts "github.com/ory/keto/proto/ory/keto/relation_tuples/v1alpha2"
 )
 
@@ -59,6 +61,8 @@ type storeEnv struct {
 	eh   rts.ExpandServiceServer
 	nids map[string]uuid.UUID
 	sym  *symtab
+	ns   rts.NamespacesServiceServer
+	sx   oplpb.SyntaxServiceServer
 	// pre-mapped request of the atomic family
 	preIns, preDel []*relationtuple.RelationTuple
 }
@@ -82,6 +86,10 @@ func newStoreEnv(t testing.TB, nss []*namespace.Namespace, seed int64, extra ...
 	}
 	e.nids["B"] = b
 	return e
+}
+
+func namespaceHandler(reg *driver.RegistryDefault) rts.NamespacesServiceServer {
+	return namespacehandler.New(reg)
 }
 
 func (e *storeEnv) ctx(n string) context.Context {
